@@ -188,6 +188,12 @@ case('bounds', {'Bounds': {'type': 'object', 'required': ['lo', 'hi', 'both', 'n
                            'properties': {'lo': {'type': 'integer', 'minimum': 0}, 'hi': {'type': 'integer', 'maximum': 255},
                                           'both': {'type': 'integer', 'minimum': 0, 'maximum': 255},
                                           'nz': {'type': 'integer', 'minimum': 1, 'format': 'uint32'}}}}, 'Bounds', 'struct')
+case('ports', {'Listener': {'type': 'object', 'required': ['port'],
+                           'properties': {'port': {'type': 'integer', 'minimum': 1, 'maximum': 65535},
+                                          'backlog': {'type': 'integer', 'exclusiveMinimum': 0, 'maximum': 4096},
+                                          'workers': {'type': ['integer', 'null'], 'minimum': 1, 'maximum': 1024},
+                                          'level': {'type': 'integer', 'minimum': -128, 'maximum': 127},
+                                          'big': {'type': 'integer', 'minimum': 0, 'maximum': 4294967295}}}}, 'Listener', 'struct')
 case('withenum', {'Color': {'type': 'string', 'enum': COLORS},
                   'W': {'type': 'object', 'required': ['c'],
                         'properties': {'c': {'$ref': '#/definitions/Color'}, 'd': {'$ref': '#/definitions/Color'},
@@ -373,6 +379,7 @@ def emit(index):
             dry = e2gen.build_prelude(root, P())
             req = {i for i, m in enumerate(dry.members) if m['prop']['required']}
             plans.insert(2, P(name='p0', widths=(), array_len=0, present=req, pick=3, descr='only the required members present (the minimal valid shape), empty strings and arrays'))
+            plans.append(P(name='pe', widths=(), array_len=0, pick=1, descr='all members present, empty strings and empty arrays'))
             for k in range(nm):
                 plans.append(P(name=f'm{k}', present=set(range(nm)) - {k}, descr=f'member #{k} (build order) absent, the others present'))
                 plans.append(P(name=f'o{k}', present={k}, widths=(3,), pick=2 + k, descr=f'only member #{k} present; strings of one 3-byte scalar'))
@@ -380,7 +387,7 @@ def emit(index):
             for pl in plans:
                 fn, em = e2gen.fn_instance(f'inst_{cid}_{pl.name}', T, root, pl)
                 gen_fns.append(fn)
-                tier = 'quick' if pl.name in ('p', 'p2', 'p0', 'n0') or pl.name.startswith('m') else 'thorough'
+                tier = 'quick' if pl.name in ('p', 'p2', 'p0', 'n0', 'pe') or pl.name.startswith('m') else 'thorough'
                 h(f'e2_inst_{cid}_{pl.name}', f'|s| gen::inst_{cid}_{pl.name}(s)', ['C02', 'C05'],
                   f'{cid}: schema-shaped instance ({pl.descr}), every leaf symbolic: valid => accepted; represented-constraint violation => rejected', tier)
                 if not c['settings']:
@@ -430,6 +437,45 @@ def emit(index):
                               f'{cid}: builder; setters called for the members present ({pl.descr}) with symbolic values: try_into ok iff required members set and conversions ok; equals deserializing the same members (defaults filled); struct -> builder -> struct identity',
                               'quick' if pl.name in ('p', 'p0') or pl.name.startswith('m') else 'thorough')
             extra_code[cid] = '\n\n'.join(gen_fns)
+
+    # ---- C04: origin types through schemars and both ingestion routes
+    for oname, o in sorted(index.get('__origin', {}).items()):
+        schema = o['schema']
+        defs = schema.get('definitions', {})
+        try:
+            root = e2gen.tree({k: v for k, v in schema.items() if k not in ('$schema', 'definitions', 'title')}, defs)
+        except e2gen.Unsupported as e:
+            skipped[f'origin {oname}'] = f'outside the fragment of the structural emitter: {e}'
+            continue
+        cn = e2gen.counts(root)
+        P = e2gen.Plan
+        oplans = [P(name='p', descr='all members present, strings of one 1-byte scalar, arrays of 1'),
+                  P(name='p2', widths=(2, 1), array_len=2, compound_null=True, pick=1, descr='strings of a 2-byte and a 1-byte scalar, arrays of 2'),
+                  P(name='pe', widths=(), array_len=0, pick=2, descr='empty strings and arrays')]
+        try:
+            dry = e2gen.build_prelude(root, P())
+        except e2gen.Unsupported as e:
+            skipped[f'origin {oname}'] = str(e)
+            continue
+        req = {i for i, m in enumerate(dry.members) if m['prop']['required']}
+        if dry.members and len(req) < len(dry.members):
+            oplans.append(P(name='p0', widths=(3,), present=req, pick=3, descr='only the required members present; strings of one 3-byte scalar'))
+        fns = []
+        for route in ('root', 'defs'):
+            r = o.get(route, {})
+            if not r.get('ok'):
+                skipped[f'origin {oname} via {route}'] = r.get('error', 'missing')
+                continue
+            mods.append(r['module'])
+            for pl in oplans:
+                fname = f'wc_{oname.lower()}_{route}_{pl.name}'
+                fn, em = e2gen.fn_wirecompat(fname, f'crate::origin::{oname}', f'{r["module"]}::{r["type"]}', root, pl)
+                fns.append(fn)
+                h(f'e2_{fname}', f'|s| gen::{fname}(s)', ['C04'],
+                  f'origin type {oname} (serde derive) vs the type typify generates from its schemars schema ingested as {"the root document" if route == "root" else "a member of the definitions map"}: '
+                  f'for every value obtained from a schema-shaped document ({pl.descr}): the generated type accepts its serialization and writes back the same document',
+                  'quick' if pl.name in ('p', 'p0') else 'thorough')
+        extra_code[f'origin_{oname}'] = '\n\n'.join(fns)
 
     with open(os.path.join(GEN, 'mod.rs'), 'w') as f:
         f.write('// @generated by /verif/lib/corpus.py: modules = output of the real typify for each corpus case; functions = straight-line harness code\n')
